@@ -218,7 +218,10 @@ def gen_scenario(rng, sid, pf):
     # than 12 elements are not kept in place by sort.Slice, and the model's sort is stable)
     pc = [c for c in comps if types[c["type"]].get("pcrowd")]
     if pc:
-        taken = {c["ord"] for c in comps if not types[c["type"]].get("pcrowd")}
+        # ... and so do the scenario's other Ordered post-processors (two of them with one Order were swapped by the real
+        # sort once the crowd had made the group larger than 12: a false alarm of the clean tree, seed 1)
+        pc = [c for c in comps if types[c["type"]].get("pcrowd") or types[c["type"]]["proc"] == "O"]
+        taken = {c["ord"] for c in comps if c not in pc}
         free = [o for o in range(10, 90) if o not in taken]
         for c, o in zip(pc, rng.sample(free, len(pc))):
             c["ord"] = o
